@@ -75,14 +75,64 @@ def run_tlc(module, cfg, scratch, workers=None, env=None, simulate=None, depth=N
     e.pop("JAVA_TOOL_OPTIONS", None)
     if env:
         e.update({k: str(v) for k, v in env.items()})
+    slot = _acquire_slot(int(workers or (os.cpu_count() or 4)))
     t0 = time.time()
     try:
         p = subprocess.run(cmd, cwd=cwd or SPEC_DIR, env=e, stdout=subprocess.PIPE, stderr=subprocess.STDOUT,
                            timeout=timeout, text=True, errors="replace")
     except subprocess.TimeoutExpired as ex:
         raise MachineryError("TLC timed out after %ss on %s/%s" % (timeout, module, cfg)) from ex
+    finally:
+        _release_slot(slot)
     res = TLCResult(p.returncode, p.stdout, time.time() - t0)
     return res
+
+
+# ---- machine-wide limit on concurrent TLC JVMs (several checks may run at once; dozens of JVMs thrash) ----------
+_SLOT_DIR = "/tmp/verif_tlc_slots"
+
+
+def _acquire_slot(weight):
+    """Take 1 slot (small JVM) or several (a many-worker model-checking run) out of os.cpu_count() slots."""
+    import fcntl
+    n = os.cpu_count() or 4
+    need = 1 if weight <= 2 else min(n, max(2, weight // 2))
+    try:
+        os.makedirs(_SLOT_DIR, exist_ok=True)
+    except OSError:
+        return []
+    held = []
+    deadline = time.time() + 3600
+    while len(held) < need and time.time() < deadline:
+        for i in range(n):
+            if len(held) >= need:
+                break
+            if any(h[0] == i for h in held):
+                continue
+            try:
+                fh = open(os.path.join(_SLOT_DIR, "slot%d" % i), "w")
+                fcntl.flock(fh, fcntl.LOCK_EX | fcntl.LOCK_NB)
+                held.append((i, fh))
+            except OSError:
+                try:
+                    fh.close()
+                except Exception:
+                    pass
+        if len(held) < need:
+            if held and need > 1:       # do not sit on partial allocations (deadlock between big runs)
+                for _, fh in held:
+                    fh.close()
+                held = []
+            time.sleep(0.3)
+    return held
+
+
+def _release_slot(held):
+    for _, fh in held or []:
+        try:
+            fh.close()
+        except Exception:
+            pass
 
 
 def must_ok(res, what):
